@@ -75,9 +75,7 @@ package sm4
 //@     (unfold (sm4.kstate (old (blk128 key)) i) (sm4.kstate (old (blk128 key)) (bvadd i 1)))
 //@     (decreases (bvsub 32 i))))
 
-//@ (defmacro wfcipher (c) (and (not (isnil c))
-//@     (= (len (field c subkeys)) 32) (= (len (field c block1)) 4) (= (len (field c block2)) 16)
-//@     (distinct (obj (field c subkeys)) (obj (field c block1)))))
+//@ (defmacro wfcipher (c) (and (not (isnil c)) (= (len (field c subkeys)) 32)))
 
 //@ (func NewCipher
 //@   (uses "sm4")
@@ -99,7 +97,7 @@ package sm4
 //@   (requires (bvsge (len src) 16))
 //@   (requires (bvsge (len dst) 16))
 //@   (ensures block (= (blk128 dst) (sm4.crypt (old (blk128 src)) (old (row (field c subkeys))) (off (field c subkeys)) false)))
-//@   (modifies (cells dst 0 16) (cells (field c block1) 0 4) (cells (field c block2) 0 16)))
+//@   (modifies (cells dst 0 16)))
 
 //@ (func "(*Sm4Cipher).Decrypt"
 //@   (uses "sm4")
@@ -107,7 +105,7 @@ package sm4
 //@   (requires (bvsge (len src) 16))
 //@   (requires (bvsge (len dst) 16))
 //@   (ensures block (= (blk128 dst) (sm4.crypt (old (blk128 src)) (old (row (field c subkeys))) (off (field c subkeys)) true)))
-//@   (modifies (cells dst 0 16) (cells (field c block1) 0 4) (cells (field c block2) 0 16)))
+//@   (modifies (cells dst 0 16)))
 
 //@ (defmacro allcells (s a body) (forall ((a B64)) (=> (bvult (bvsub a (off s)) (len s)) body)))
 
